@@ -153,3 +153,105 @@ Theorem C18_smart_waitgroup_misuse_refuted :
   exists s, mrun false m_init [MStartCall; MStopCall; MExit; MStartCall] = Some s /\ m_misuse s = true.
 Proof. exact smart_old_waitgroup_misuse_refuted. Qed.
 Print Assumptions C18_smart_waitgroup_misuse_refuted.
+
+(* --- tree level: WritableBTreeV2.Enable/Stop/IsEnabled/GetProgress of incremental rebalancing ------ *)
+(* System (c) of Model/Lifecycle.v: the field bt.incrementalRebalancer and every IncrementalRebalancer object
+   it has pointed to (each one a state of system (a), moving by `istep true` only), any number of concurrent
+   callers of the four wrappers.  `current` = the code as it is (golden skeleton "tree"/"patched" of
+   tools/c18_protocol_shape.json), `early_detach` = field set to nil before rebalancer.Stop() (seeded C18-b). *)
+
+(* the product property: every object installed in the tree is a reachable state of system (a) *)
+Theorem C18_tree_projects_to_inc : forall v s k g,
+  treach v s -> nth_error (t_gens s) k = Some g -> ireach true (g_in g).
+Proof. exact tree_projects_to_inc. Qed.
+Print Assumptions C18_tree_projects_to_inc.
+
+(* a StopIncrementalRebalancing call that read object g and returns: g has no goroutine left, no object
+   installed at or before g has a goroutine that may still run a session, and an object that has one was
+   installed after this call read the field (index > g) and is the one the field points to *)
+Theorem C18_tree_stop_return_means_stopped : forall s g ok s',
+  treach current s -> tstep current s (TStopFinish g ok) = Some s' ->
+  (exists gs, nth_error (t_gens s') g = Some gs /\ i_stopped_closed (g_in gs) = true /\
+              i_workers (g_in gs) = 0%nat /\ i_spawn (g_in gs) = 0%nat) /\
+  (forall k gs, nth_error (t_gens s') k = Some gs -> (k <= g)%nat -> i_active (g_in gs) = 0%nat) /\
+  (forall k gs, nth_error (t_gens s') k = Some gs -> (i_active (g_in gs) > 0)%nat -> (g < k)%nat /\ t_field s' = Some k).
+Proof. exact tree_stop_return_means_stopped. Qed.
+Print Assumptions C18_tree_stop_return_means_stopped.
+
+(* a call that returns at once because the field is nil: no object of this tree has a goroutine that may
+   still run a session *)
+Theorem C18_tree_stop_nil_return_no_active_worker : forall s s',
+  treach current s -> tstep current s TStopRead = Some s' -> t_ret_nil s' = S (t_ret_nil s) ->
+  forall k gs, nth_error (t_gens s') k = Some gs -> i_active (g_in gs) = 0%nat.
+Proof. exact tree_stop_nil_return_no_active_worker. Qed.
+Print Assumptions C18_tree_stop_nil_return_no_active_worker.
+
+(* at most one goroutine per tree that has not yet passed `ir.running = false`, and it belongs to the object
+   the field points to (goroutines that have only their deferred close(stoppedChan) left are not counted:
+   C18_tree_exiting_overlap_example) *)
+Theorem C18_tree_at_most_one_active_worker : forall s, treach current s ->
+  (forall k g, nth_error (t_gens s) k = Some g -> (i_active (g_in g) <= 1)%nat) /\
+  (forall k g, nth_error (t_gens s) k = Some g -> (i_active (g_in g) > 0)%nat -> t_field s = Some k) /\
+  (forall k1 g1 k2 g2, nth_error (t_gens s) k1 = Some g1 -> nth_error (t_gens s) k2 = Some g2 ->
+     (i_active (g_in g1) > 0)%nat -> (i_active (g_in g2) > 0)%nat -> k1 = k2).
+Proof. exact tree_at_most_one_active_worker. Qed.
+Print Assumptions C18_tree_at_most_one_active_worker.
+
+Theorem C18_tree_exiting_worker_is_awaited : forall s k g,
+  treach current s -> nth_error (t_gens s) k = Some g ->
+  (i_exit (g_in g) > 0)%nat -> (i_wait (g_in g) > 0)%nat /\ i_stopped_closed (g_in g) = false.
+Proof. exact tree_exiting_worker_is_awaited. Qed.
+Print Assumptions C18_tree_exiting_worker_is_awaited.
+
+Theorem C18_tree_no_panic : forall s k g,
+  treach current s -> nth_error (t_gens s) k = Some g -> i_panic (g_in g) = false.
+Proof. exact tree_no_panic. Qed.
+Print Assumptions C18_tree_no_panic.
+
+(* a StopIncrementalRebalancing call is never stuck: it can move itself, or (blocked in <-stoppedChan) a step
+   of the system itself is enabled and decreases system (a)'s measure *)
+Theorem C18_tree_stop_progress : forall s g gs,
+  treach current s -> nth_error (t_gens s) g = Some gs ->
+  ((g_pre gs > 0)%nat -> exists s', tstep current s (TStopInner g) = Some s') /\
+  ((g_post gs > 0)%nat -> exists s', tstep current s (TStopFinish g true) = Some s') /\
+  ((i_wait (g_in gs) > 0)%nat -> i_stopped_closed (g_in gs) = false ->
+   exists l s' gs', i_internal l = true /\ tstep current s (TInner g l) = Some s' /\
+     nth_error (t_gens s') g = Some gs' /\ (i_measure (g_in gs') < i_measure (g_in gs))%nat).
+Proof. exact tree_stop_progress. Qed.
+Print Assumptions C18_tree_stop_progress.
+
+(* the seeded variant: the second of two overlapping stop requests returns while the goroutine is in its loop *)
+Theorem C18_tree_early_detach_refuted :
+  exists s gs, trun early_detach t_init trace_early_detach = Some s /\
+    t_stops s = 2%nat /\ t_ret_nil s = 1%nat /\ nth_error (t_gens s) 0 = Some gs /\
+    i_loop (g_in gs) = 1%nat /\ i_stop_closed (g_in gs) = false /\ i_stopped_closed (g_in gs) = false /\ g_pre gs = 1%nat.
+Proof. exact tree_early_detach_refuted. Qed.
+Print Assumptions C18_tree_early_detach_refuted.
+
+Theorem C18_tree_early_detach_two_workers_refuted :
+  exists s g0 g1, trun early_detach t_init [TEnable true; TStopRead; TEnable true] = Some s /\
+    nth_error (t_gens s) 0 = Some g0 /\ nth_error (t_gens s) 1 = Some g1 /\
+    i_active (g_in g0) = 1%nat /\ i_active (g_in g1) = 1%nat.
+Proof. exact tree_early_detach_two_workers_refuted. Qed.
+Print Assumptions C18_tree_early_detach_two_workers_refuted.
+
+(* non-vacuity for `current`: two overlapping stop requests both wait and both return after the goroutine ended *)
+Theorem C18_tree_two_overlapping_stops :
+  exists s1 g1 s2 g2,
+    trun current t_init trace_two_stops_wait = Some s1 /\ nth_error (t_gens s1) 0 = Some g1 /\
+    i_wait (g_in g1) = 2%nat /\ i_loop (g_in g1) = 1%nat /\ t_ret s1 = 0%nat /\ tstep current s1 (TInner 0 IReturn) = None /\
+    trun current s1 trace_two_stops_finish = Some s2 /\ nth_error (t_gens s2) 0 = Some g2 /\
+    t_ret s2 = 2%nat /\ t_ret_nil s2 = 0%nat /\ t_field s2 = None /\ i_workers (g_in g2) = 0%nat /\ i_stopped_closed (g_in g2) = true.
+Proof. exact tree_two_overlapping_stops. Qed.
+Print Assumptions C18_tree_two_overlapping_stops.
+
+(* observation: a goroutine past `ir.running = false` can coexist with the goroutine of a newer object *)
+Theorem C18_tree_exiting_overlap_example :
+  exists s1 a0 a1 s2 b0,
+    trun current t_init trace_exiting_overlap = Some s1 /\
+    nth_error (t_gens s1) 0 = Some a0 /\ nth_error (t_gens s1) 1 = Some a1 /\
+    i_exit (g_in a0) = 1%nat /\ i_wait (g_in a0) = 1%nat /\ i_active (g_in a0) = 0%nat /\ i_active (g_in a1) = 1%nat /\
+    trun current s1 trace_exiting_overlap_stop = Some s2 /\ t_ret s2 = 1%nat /\ t_field s2 = None /\
+    nth_error (t_gens s2) 0 = Some b0 /\ i_exit (g_in b0) = 1%nat /\ i_wait (g_in b0) = 1%nat.
+Proof. exact tree_exiting_overlap_example. Qed.
+Print Assumptions C18_tree_exiting_overlap_example.
